@@ -598,9 +598,14 @@ def _container_case(case):
             return f'{attr}: wrote {getattr(vtf, attr)!r}, read {getattr(back, attr)!r}'
     if tuple(back.reflectivity) != tuple(vtf.reflectivity):
         return f'reflectivity {tuple(vtf.reflectivity)} -> {tuple(back.reflectivity)}'
-    if set(back._frames) != set(vtf._frames):
-        return f'frame set differs: wrote {sorted(map(str, vtf._frames))} read {sorted(map(str, back._frames))}'
+    # The saved structure is frames x layers x range(mipmap_count): the constructor also creates one more, smaller
+    # level in memory which is not part of the file (documented in DESIGN.md, C15) -- it is not compared.
+    saved = {k for k in vtf._frames if k[2] < vtf.mipmap_count}
+    if set(back._frames) != saved:
+        return f'frame set differs: wrote {sorted(map(str, saved))} read {sorted(map(str, back._frames))}'
     for (key, x, y), px in written.items():
+        if key not in saved:
+            continue
         want = _expected_pixels(fmt_name, px)
         if want is None:
             continue
